@@ -221,7 +221,8 @@ def case_mixed(ctx, family, wrapper, kind="Field"):
         umat = fem.ThreeFieldVariation(inner)
     else:
         umat = fem.NearlyIncompressible(inner, bulk=ctx.var("bulk", 1, 50))
-    check_item(ctx, field, lambda: fem.SolidBody(umat, field), x, W=W, symmetric=True)
+    kw = TOL if kind == "Axisymmetric" else {}  # fl(2 pi R), fl(R^2) are rounded floats: exact only to ~1e-16
+    check_item(ctx, field, lambda: fem.SolidBody(umat, field), x, W=W, symmetric=True, **kw)
 
 
 def case_nearly_incompressible(ctx, family, kind="Field", abstract_area=False):
@@ -345,6 +346,49 @@ def case_formitem(ctx):
     check_item(ctx, field, make, x, W=None, symmetric=True)
 
 
+def case_formitem_mixed(ctx, sym=False):
+    """FormItem on a mixed (u, p) container: a consistent linear pair (perturbed Lagrangian of linear elasticity); with sym=True
+    the symmetric shortcut may only be used inside the square diagonal blocks"""
+    from felupe.math import ddot, sym as symm, trace, grad
+
+    m = tiny_mesh("quad4x2")
+    region = fem.RegionQuad(m)
+    field = fem.FieldsMixed(region, n=2)
+    x = unknowns(ctx, field)
+    install(ctx, field, x)
+    mu, kappa = ctx.var("mu", 0.1, 5), ctx.var("kappa", 1, 50)
+
+    @fem.Form(v=field, u=field)
+    def bilinearform():
+        def a_uu(v, u, μ, κ):
+            return 2 * μ * ddot(symm(grad(v)), symm(grad(u)))
+
+        def a_up(v, q_, μ, κ):
+            return trace(grad(v)) * q_[0]
+
+        def a_pp(r_, q_, μ, κ):
+            return -r_[0] * q_[0] / κ
+
+        return [a_uu, a_up, a_pp]
+
+    @fem.Form(v=field)
+    def linearform():
+        def L_u(v, μ, κ):
+            u, p_ = field[0], field[1]
+            return 2 * μ * ddot(symm(grad(v)), symm(grad(u))) + trace(grad(v)) * p_.interpolate()[0]
+
+        def L_p(r_, μ, κ):
+            u, p_ = field[0], field[1]
+            return r_[0] * (trace(grad(u)) - p_.interpolate()[0] / κ)
+
+        return [L_u, L_p]
+
+    def make():
+        return fem.FormItem(bilinearform, linearform, sym=sym, kwargs={"μ": mu, "κ": kappa})
+
+    check_item(ctx, field, make, x, W=None, symmetric=True)
+
+
 def cases(tier):
     out = []
     thorough = tier == "thorough"
@@ -381,4 +425,6 @@ def cases(tier):
     for which in ("pointload", "bodyforce", "gravity", "pointload_mixed", "bodyforce_mixed"):
         out.append(("loads", case_loads, {"which": which, "family": "quad4x2" if "mixed" not in which else "quad4"}))
     out.append(("formitem", case_formitem, {}))
+    out.append(("formitem_mixed", case_formitem_mixed, {"sym": False}))
+    out.append(("formitem_mixed", case_formitem_mixed, {"sym": True}))
     return out
